@@ -3,40 +3,52 @@ package checks
 import (
 	"regexp"
 	"strings"
+	"sync"
+
+	"verif/mc/oracle"
 )
 
-// Classification of the divergences C20 finds on the current tree. Every
-// class has a predicate over the case text and the two observed behaviours;
-// anything that matches no predicate stays an unclassified violation.
+// Classification of the divergences C20 finds on the current tree.
 //
-// Two of the predicates are "repair" predicates: the case is re-run in the
-// interpreter with the one feature the class is about taken out of the input
-// (e=3 instead of e='1+2'; `++`/`--` in front of a non-name written as two
-// signs) and the class applies only if the interpreter then agrees with what
-// bash gave for the ORIGINAL text. A divergence with any other cause survives
-// the repair and is reported.
-
+// A divergence gets a class only if it is *explained* by defects on the list
+// below; explained means: there is a chain of at most three "repairs" of the
+// input (each takes the one feature a defect is about out of the input without
+// changing what bash computes for it) after which the interpreter's
+// observation, corrected by the "normalisations" (defects of how an error
+// surfaces, not of the arithmetic) and judged by the direct predicates, is
+// what bash gave for the ORIGINAL input. A divergence with any other cause
+// survives every repair and stays an unclassified violation. The class
+// reported is the first defect of the chain.
+//
+// repairs (input shape):
+//
+//	value-text-not-evaluated         a variable (e, v) whose value is not a plain number, or a quoted
+//	                                 `let` argument: repaired by e=3 / by writing the value in
+//	                                 parentheses in place of v / by running (( text )) instead of let 'text'
+//	double-sign-read-as-increment    `++`/`--` that neither follows nor precedes a name (bash: two signs):
+//	                                 repaired by writing `+ +` / `- -`; for let the text is run in (( ))
+//
+// direct predicates (shape + direction):
+//
+//	array-element-assignment-unsupported   text assigns/increments arr[i]; the interpreter reports
+//	                                       "unsupported operand"
+//	invalid-constant-evaluates-to-0        text has a numeric token bash rejects; bash reports an error, the
+//	                                       interpreter none and computes what it computes with 0 in its place
+//	increment-of-increment-error-without-side-effect   ++x++ and the like: an error in both, bash has done the first
+//	                                       increment before it
+//
+// normalisations (how an error surfaces):
+//
+//	error-leaves-status-0                  $(( )), ${arr[ ]}, for (( )): diagnostic written, command not run, $? is 0
+//	negative-subscript-aborts-command      ${arr[E]}, E < -len: bash prints a diagnostic and expands to nothing,
+//	                                       the interpreter aborts the command
 var (
-	c20ArrLvalueRx = regexp.MustCompile(`arr\[[0-9]\] ?(\+\+|--|(\+|-|\*|/|%|<<|>>|&|\||\^)?=([^=]|$))|(\+\+|--) ?arr\[`)
+	c20ArrLvalueRx = regexp.MustCompile(`arr\[[^\]]*\] ?(\+\+|--|(\+|-|\*|/|%|<<|>>|&|\||\^)?=([^=]|$))|(\+\+|--) ?arr\[`)
 	c20PrePostRx   = regexp.MustCompile(`(\+\+|--)[a-z]+(\[[0-9]\])?(\+\+|--)`)
 	c20TokE        = regexp.MustCompile(`(^|[^a-zA-Z0-9_#@])e($|[^a-zA-Z0-9_\[])`)
-	c20PlainRx     = regexp.MustCompile(`^[a-zA-Z0-9_#@]+$`)
-	c20Tok08       = regexp.MustCompile(`(^|[^a-zA-Z0-9_#@])08($|[^a-zA-Z0-9_#@])`)
+	c20TokV        = regexp.MustCompile(`(^|[^a-zA-Z0-9_#@])v($|[^a-zA-Z0-9_\[])`)
+	c20NumTokRx    = regexp.MustCompile(`(^|[^a-zA-Z0-9_#@])([0-9][a-zA-Z0-9_#@]*)`)
 )
-
-func c20PanicClass(t arCase, info string) string {
-	text := c20Text(t)
-	switch {
-	case strings.Contains(info, "variable name must not be empty") && c20ArrLvalueRx.MatchString(text):
-		// expand.Arithm takes the assignment target's name with Word.Lit(),
-		// which is "" for arr[i], and asks the environment for variable ""
-		return "panic-array-element-assigned-or-incremented"
-	case strings.Contains(info, "interface conversion: syntax.ArithmExpr is *syntax.UnaryArithm") && c20PrePostRx.MatchString(compactArith(text)):
-		// ++x++ parses as Inc(PostInc(x)); Arithm asserts the operand is a Word
-		return "panic-preincrement-of-postincrement"
-	}
-	return ""
-}
 
 // c20FixIncDec rewrites every `++`/`--` that bash does not read as an
 // increment (it neither follows a name nor is followed by one) as two
@@ -84,89 +96,195 @@ func c20FixIncDec(s string) (string, bool) {
 	return sb.String(), changed
 }
 
-// c20Fields splits "value|status|x|y|e|u|arr|idx|i|n".
-func c20Fields(r string) []string { return strings.SplitN(r, "|", 10) }
+// c20Fields splits "value|status|x|y|e|u|arr|idx|i|n|errflag".
+func c20Fields(r string) []string { return strings.SplitN(r, "|", c20NF) }
 
-func c20VarsOf(f []string) string { return strings.Join(f[2:], "|") }
-
-// c20Errored reports whether the interpreter run ended in a reported
-// arithmetic error: no value for exp/sub, a diagnostic on stderr otherwise.
-func c20Errored(ctx string, f []string, stderr string) bool {
-	if ctx == "exp" || ctx == "sub" {
-		return f[0] == "ERR"
-	}
-	return stderr != ""
+// c20InvalidNumTokens returns text with every numeric token bash rejects
+// replaced by 0, and whether there was one.
+func c20InvalidNumTokens(text string) (string, bool) {
+	found := false
+	out := c20NumTokRx.ReplaceAllStringFunc(text, func(m string) string {
+		sub := c20NumTokRx.FindStringSubmatch(m)
+		if c20NumTokValid(sub[2]) {
+			return m
+		}
+		found = true
+		return sub[1] + "0"
+	})
+	return out, found
 }
 
-func c20Class(t arCase, r arShRun, bash string) string {
-	text := c20Text(t)
-	bf := c20Fields(bash)
-	if len(bf) != 10 {
-		return ""
+// c20NumTokValid applies bash's rules for integer constants (expr.c strlong)
+// to one token.
+func c20NumTokValid(tok string) (ok bool) {
+	defer func() {
+		if r := recover(); r != nil {
+			if _, isErr := r.(arRefErr); isErr {
+				ok = false
+				return
+			}
+			ok = true // too large: not this class's business
+		}
+	}()
+	(&arRefParser{st: newArRefState()}).strlong(tok)
+	return true
+}
+
+var c20RejectCache sync.Map
+
+// c20BashRejectsValue asks bash (once per value) whether $(( v )) with v
+// holding the text is an error in the initial state.
+func c20BashRejectsValue(v string) bool {
+	if r, ok := c20RejectCache.Load(v); ok {
+		return r.(bool)
 	}
-	bashErr := bf[1] == "1" && (bf[0] == "ERR" || t.Ctx != "exp" && t.Ctx != "sub")
-	if r.Kind == "" {
+	out, _, err := oracle.ShellFile("bash", c20SetupE+"; v="+oracle.ShQuote(v)+"\n: $(( v )) 2>/dev/null\necho st=$?\n", "")
+	if err != nil {
+		panic(err)
+	}
+	rej := strings.TrimSpace(string(out)) == "st=1"
+	c20RejectCache.Store(v, rej)
+	return rej
+}
+
+// c20State is an input as the repairs transform it.
+type c20State struct {
+	ctx, text string
+	e3        bool // e=3 instead of e='1+2'
+	t         arCase
+	vInlined  bool
+}
+
+func (s c20State) run() arShRun {
+	setup := c20SetupE
+	if s.e3 {
+		setup = c20Setup3
+	}
+	if s.t.HasV && !s.vInlined {
+		setup = c20Setup(setup, s.t)
+	}
+	return c20RunSh(s.ctx, setup, s.text)
+}
+
+// c20Classify returns the class of a divergence ("" = unexplained) and a
+// note for the message.
+func c20Classify(t arCase, r arShRun, bf []string) (string, string) {
+	chain, ok := c20Explain(c20State{ctx: t.Ctx, text: c20Text(t), t: t}, &r, bf, 0)
+	if !ok || len(chain) == 0 {
+		return "", ""
+	}
+	return chain[0], " [explained by: " + strings.Join(chain, " + ") + "]"
+}
+
+// c20Explain: see the comment at the top. r may be given for the initial
+// state (already run).
+func c20Explain(s c20State, r *arShRun, bf []string, depth int) ([]string, bool) {
+	if r == nil {
+		rr := s.run()
+		r = &rr
+	}
+	bashErr := bf[10] == "E"
+	switch r.Kind {
+	case "parse":
+		if bashErr {
+			return nil, true // an error in both (side effects before a syntax error are not compared)
+		}
+	case "":
 		sf := c20Fields(r.R)
-		if len(sf) != 10 {
-			return ""
+		if len(sf) != c20NF {
+			return nil, false
 		}
-		shErr := c20Errored(t.Ctx, sf, r.Stderr)
+		shErr := sf[10] == "E"
+		// the repaired e=3 prints as 3 where bash still has the text
+		if s.e3 && sf[4] == "3" && bf[4] == "1+2" {
+			sf[4] = "1+2"
+		}
+		bashR := strings.Join(bf, "|")
+		if strings.Join(sf, "|") == bashR {
+			return nil, true
+		}
+		// normalisation: the error is reported, the command is not run, but $? is 0
+		var chain []string
+		if shErr && sf[1] == "0" && (s.ctx == "exp" || s.ctx == "sub" || s.ctx == "for" || s.ctx == "forc") {
+			sf[1] = "1"
+			chain = []string{"error-leaves-status-0"}
+			if strings.Join(sf, "|") == bashR {
+				return chain, true
+			}
+		}
+		varsEq := strings.Join(sf[2:10], "|") == strings.Join(bf[2:10], "|")
+		unsupported := strings.Contains(r.Stderr, "unsupported operand for arithmetic operator")
 		switch {
-		case shErr && sf[0] == bf[0] && c20VarsOf(sf) == c20VarsOf(bf) && sf[1] == "0" && bf[1] == "1" && (t.Ctx == "exp" || t.Ctx == "sub" || t.Ctx == "for"):
-			// the error is reported and the command is not run, but $? is 0
-			return "error-in-expansion-or-loop-leaves-status-0"
-		case c20Tok08.MatchString(text) && !shErr && bashErr:
-			return "invalid-octal-08-accepted"
-		case t.Ctx == "letq" && !c20PlainRx.MatchString(text) && c20VarsOf(sf) == c20Init:
-			// a quoted let argument is not parsed as arithmetic at all: it is
-			// read like a number (atoi of the whole text), nothing is assigned
-			return "let-quoted-argument-not-evaluated"
-		case t.Ctx == "sub" && strings.Contains(r.Stderr, "negative array index") && sf[0] == "ERR" && bf[0] == "<>" && bf[1] == "0" && c20VarsOf(sf) == c20VarsOf(bf):
-			// bash: diagnostic, empty expansion, the command still runs
-			return "negative-subscript-out-of-range-aborts-command"
+		case unsupported && c20ArrLvalueRx.MatchString(s.text):
+			// nothing after the refused assignment is comparable
+			return []string{"array-element-assignment-unsupported"}, true
+		case unsupported && bashErr && c20PrePostRx.MatchString(compactArith(s.text)) && sf[0] == bf[0] && sf[1] == bf[1]:
+			return append([]string{"increment-of-increment-error-without-side-effect"}, chain...), true
+		case (s.ctx == "exp" || s.ctx == "sub") && strings.Contains(r.Stderr, "negative array index") && sf[0] == "ERR" &&
+			bashErr && bf[0] != "ERR" && bf[1] == "0" && varsEq:
+			// bash: diagnostic, the element reads as empty / 0, the command still runs
+			return []string{"negative-subscript-aborts-command"}, true
+		}
+		if zeroed, has := c20InvalidNumTokens(s.text); has && bashErr && !shErr {
+			s2 := s
+			s2.text = zeroed
+			if r2 := s2.run(); r2.Kind == "" && r2.R == r.R {
+				return []string{"invalid-constant-evaluates-to-0"}, true
+			}
+		}
+		if s.t.HasV && !s.vInlined && c20TokV.MatchString(s.text) && bashErr && !shErr && c20BashRejectsValue(s.t.V) {
+			// the value is not an expression bash accepts (`$x`, or v naming
+			// itself): the interpreter reads it as 0 without a diagnostic
+			s2 := s
+			s2.vInlined = true // = v unset
+			if r2 := s2.run(); r2.Kind == "" && r2.R == r.R {
+				return []string{"value-text-not-evaluated"}, true
+			}
+		}
+	default:
+		return nil, false
+	}
+	if depth >= 3 {
+		return nil, false
+	}
+	// repairs
+	type rep struct {
+		class string
+		s     c20State
+	}
+	var reps []rep
+	if !s.e3 && c20TokE.MatchString(s.text) {
+		s2 := s
+		s2.e3 = true
+		reps = append(reps, rep{"value-text-not-evaluated", s2})
+	}
+	if s.t.HasV && !s.vInlined && c20TokV.MatchString(s.text) {
+		s2 := s
+		s2.vInlined = true
+		in := "(" + s.t.V + ")"
+		if strings.TrimSpace(s.t.V) == "" {
+			in = "0"
+		}
+		s2.text = c20TokV.ReplaceAllString(s.text, "${1}"+strings.ReplaceAll(in, "$", "$$")+"${2}")
+		reps = append(reps, rep{"value-text-not-evaluated", s2})
+	}
+	if s.ctx == "letq" {
+		s2 := s
+		s2.ctx = "cmd"
+		reps = append(reps, rep{"value-text-not-evaluated", s2})
+	}
+	if fixed, has := c20FixIncDec(s.text); has {
+		s2 := s
+		s2.text = fixed
+		if s2.ctx == "let" {
+			s2.ctx = "cmd" // blanks cannot be kept in an unquoted let word
+		}
+		reps = append(reps, rep{"double-sign-read-as-increment", s2})
+	}
+	for _, rp := range reps {
+		if chain, ok := c20Explain(rp.s, nil, bf, depth+1); ok {
+			return append([]string{rp.class}, chain...), true
 		}
 	}
-	// repair predicates
-	hasE := c20TokE.MatchString(text)
-	fixed, hasInc := c20FixIncDec(text)
-	type cand struct {
-		setup, text, class string
-		eRepaired          bool
-	}
-	var cands []cand
-	if hasE {
-		cands = append(cands, cand{c20Setup3, text, "variable-holding-expression-text-not-evaluated", true})
-	}
-	if hasInc {
-		cands = append(cands, cand{c20SetupE, fixed, "double-sign-read-as-increment-of-non-name", false})
-	}
-	if hasE && hasInc {
-		cands = append(cands, cand{c20Setup3, fixed, "variable-holding-expression-text-not-evaluated", true})
-	}
-	ctx := t.Ctx
-	if r.Kind == "parse" {
-		ctx = "exp" // bash was asked for $(( text )) whatever the context
-	}
-	for _, cd := range cands {
-		r2 := c20RunSh(ctx, cd.setup, cd.text)
-		if r2.Kind != "" {
-			continue
-		}
-		f2 := c20Fields(r2.R)
-		if len(f2) != 10 {
-			continue
-		}
-		// the known status defect: an error the interpreter reports leaves $? = 0
-		if c20Errored(ctx, f2, r2.Stderr) && f2[1] == "0" && (ctx == "exp" || ctx == "sub" || ctx == "for") {
-			f2[1] = "1"
-		}
-		// with e=3 an untouched e prints as 3 where bash still has the text
-		if cd.eRepaired && f2[4] == "3" && bf[4] == "1+2" {
-			f2[4] = "1+2"
-		}
-		if strings.Join(f2, "|") == bash {
-			return cd.class
-		}
-	}
-	return ""
+	return nil, false
 }
